@@ -107,6 +107,8 @@ def main(prop, tier):
             for t in tags:
                 other[t] = other.get(t, 0) + 1
 
+    if info.get("build_ok") and info.get("tables") and tier != "quick" and prop in ("C01", "C04"):
+        CC.probe_all_attackers_goal(on_fail, stats)
     if info.get("build_ok") and info.get("tables") and tier != "quick":
         # thorough: 12 worker processes, each with its own driver and PRNG stream
         from concurrent.futures import ProcessPoolExecutor
@@ -129,6 +131,10 @@ def main(prop, tier):
             CC.run_sessions(drv, rng, info["tables"]["defender"], on_fail, stats, n_sessions, n_events, PROFILES[prop])
             for share, prof in EXTRA.get(prop, []):
                 CC.run_sessions(drv, rng, info["tables"]["defender"], on_fail, stats, max(1, int(n_sessions * share)), n_events, prof)
+            if prop in ("C01", "C04"):
+                CC.probe_all_attackers_goal(on_fail, stats)
+            if prop in ("C07", "C16"):
+                CC.probe_unencodable_name(on_fail, stats)
             if prop in DIRECTED:
                 CC.directed_sessions(drv, rng, info["tables"]["defender"], on_fail, stats, 16)
                 CC.directed_races(drv, rng, info["tables"]["defender"], on_fail, stats, 24)
